@@ -847,6 +847,14 @@ def replay_entities(kinds):
         multi = [k for k in names if len(html.entities.html5[k]) > 1]
         pick = multi[:40] + names[::45]
         cases += [('&' + k, html.entities.html5[k]) for k in pick]
+    if 'case-siblings' in kinds or 'named' in kinds:
+        # names that differ from another name only by letter case but denote something else (&Dagger; / &dagger;, &Gt; / &gt; ...)
+        by_lower = {}
+        for k, v in html.entities.html5.items():
+            if k.endswith(';'):
+                by_lower.setdefault(k.lower(), set()).add((k, v))
+        sib = sorted(k for grp in by_lower.values() if len({v for _, v in grp}) > 1 for k, _ in grp)
+        cases += [('&' + k, html.entities.html5[k]) for k in sib[:: (1 if 'case-siblings' in kinds else 6)]]
     if 'numeric' in kinds:
         for v in (0x41, 0x0, 0x7f, 0xe9, 0x2028, 0xffff, 0x10000, 0x10ffff, 9, 10, 0x1F600):
             cases += [('&#x%x;' % v, chr(v)), ('&#%d;' % v, chr(v)), ('&#X%x;' % v, None)]
@@ -911,10 +919,21 @@ def main(tier):
     mod = Module(common.mir_dump('tc'))
     na = run_m12a(res, mod, tier)
     nb, pend_b = m12b(res, mod, tier)
-    nc, pend_c = m12c(res, mod, tier)
-    nd, pend_d = m12d(res, mod, tier)
-    nc += nd
-    pend_c = pend_c + pend_d
+    nc, pend_c, nd, pend_d = 0, [], 0, []
+    for fn_, name_ in ((m12c, 'M12c (entity table / entities::decode)'), (m12d, 'M12d (parse_next_entity)')):
+        try:
+            n_, pend_ = fn_(res, mod, tier)
+            nc += n_
+            pend_c = pend_c + pend_
+        except MirUnsupported as e:
+            # probe fallback (DESIGN 10.2): nothing is proved for this kernel; the reference pool goes through the real pipeline so that a
+            # decoder that is known to be wrong is reported (replayed, concrete), otherwise the run is inconclusive
+            res.inconc('%s is outside the executor (%s)' % (name_, str(e)[:140]))
+            bad = replay_entities(['named', 'numeric', 'case-siblings'])
+            res.coverage['traces_validated_against_impl'] = res.coverage.get('traces_validated_against_impl', 0) + 1
+            if bad:
+                res.violation({'engine': 'replay', 'harness': 'M12c-fallback', 'class': 'e2e'},
+                              'static text %s %s (%d references of the probe pool differ)' % (bad[0][0], bad[0][1], len(bad)), {'entity': bad[0][0]})
     seen = set()
     for cls, what, s0, kind in pend_c:
         if cls in seen:
@@ -970,7 +989,7 @@ def main(tier):
 def replay(path):
     d = json.load(open(path))['replay']
     if 'entity' in d:
-        bad = replay_entities(['named', 'numeric'])
+        bad = replay_entities(['named', 'numeric', 'case-siblings'])
     elif 'string' in d:
         bad = e2e([d['string']])
     else:
